@@ -120,6 +120,12 @@ class Extractor:
                 return [('loop', None, None, hdr + body, n['id'], f)]
             rep = P.add(P.poly(f, lf['bound'], R), P.poly(f, lf['start'], R), -1)
             return [('loop', subst_poly(rep, subst), lf['name'], hdr + body, n['id'], f)]
+        if k == 'CXXForRangeStmt':
+            body = self.stmt(f, R, n['body'], subst, depth)
+            if not body:
+                return []
+            rep = {(substitute(R.render(n['range']), subst) + '.size',): 1} if 'range' in n else None
+            return [('loop', rep, (n.get('loopvar') or {}).get('name'), body, n['id'], f)]
         if k in ('WhileStmt', 'DoStmt'):
             body = self.stmt(f, R, n['body'], subst, depth)
             cond = self.expr_items(f, R, n['cond'], subst, depth)
@@ -323,8 +329,12 @@ class Extractor:
             # a local with a single definition shows through to its initialiser in `src`; keep the
             # declared type of the local (that is what is emitted)
             b = f.nodes[f.strip(obj['id'], 'all')]
-            if b['k'] == 'DeclRefExpr' and b['decl'].get('dk') == 'local':
+            from paths import range_vars
+            if b['k'] == 'DeclRefExpr' and b['decl'].get('dk') == 'local' and b['decl']['id'] in range_vars(f) and range_vars(f)[b['decl']['id']][1]:
+                pass   # a reference to the current element of a range-for: the element itself is emitted
+            elif b['k'] == 'DeclRefExpr' and b['decl'].get('dk') == 'local':
                 it['src_local'] = b['decl']['name']
+                it['src'] = 'local:' + b['decl']['name']
                 try:
                     cases = symlocal.cases_at(f, b['decl']['id'], n['id'])
                     it['src_cases'] = [(subst_poly(v, subst) if v is not None else None, {substitute(k, subst): t for k, t in val.items()}) for v, val in cases]
@@ -339,7 +349,16 @@ class Extractor:
                     it['src_vals'] = None
             elif b['k'] == 'DeclRefExpr' and b['decl'].get('dk') == 'param':
                 it['src_vals'] = [subst_poly(P.poly(f, obj['id'], R), subst)]
-        elif m['k'] == 'CXXMemberCallExpr' and m['callee']['name'] in ('c_str', 'data'):
+        elif m['k'] == 'CXXMemberCallExpr' and m['callee']['name'] == 'data' and m['callee'].get('classq') == 'std::vector':
+            z = zero_vector(f, m['obj'], R)
+            if z is not None:
+                it['srck'] = 'zeros'
+                it['src'] = 'zeros'
+                it['zeros_n'] = subst_poly(z, subst)
+            else:
+                it['srck'] = 'other'
+                it['src'] = substitute(R.render(args[0]), subst)
+        elif m['k'] == 'CXXMemberCallExpr' and m['callee']['name'] in ('c_str', 'data') and m['callee'].get('classq') == 'std::basic_string':
             it['srck'] = 'string'
             it['src'] = substitute(R.render(m['obj']), subst)
         elif m['k'] == 'DeclRefExpr' and m['decl'].get('dk') == 'local':
@@ -357,6 +376,25 @@ class Extractor:
             it['srck'] = 'other'
             it['src'] = substitute(R.render(args[0]), subst)
         return it
+
+
+def zero_vector(f, obj, R):
+    """obj designates a std::vector<char> that was constructed as (N, 0) and never modified: -> poly of N"""
+    n = f.nodes[f.strip(obj, 'all')]
+    if n['k'] != 'DeclRefExpr' or n['decl'].get('dk') != 'local':
+        return None
+    init = local_init(f, n['decl']['id'])
+    if init is None or n['decl']['id'] not in R.single_def_locals():
+        return None
+    c = f.nodes[f.strip(init, 'noop')]
+    while c['k'] in ('ExprWithCleanups', 'MaterializeTemporaryExpr', 'CXXBindTemporaryExpr') and c['ch']:
+        c = f.nodes[f.strip(c['ch'][0], 'noop')]
+    if c['k'] not in ('CXXConstructExpr', 'CXXTemporaryObjectExpr') or c['callee'].get('class') != 'std::vector<char>' or len(c.get('args', [])) < 2:
+        return None
+    fill = f.nodes[f.strip(c['args'][1], 'all')]
+    if fill.get('cv') != '0':
+        return None
+    return P.poly(f, c['args'][0], R)
 
 
 def show(items, ind=0, out=None):
